@@ -111,6 +111,19 @@ def _run_one(args):
     from verif.engine.runner import evaluate_rules
 
     d = pathlib.Path(scratch_root) / re.sub(r"\W+", "_", name)
+    if kind == "package-variant":
+        try:
+            from verif.engine.benign import make_variant
+
+            make_variant(name, d, repo)
+            mod = importlib.import_module(module_name)
+            insts, err = evaluate_rules(mod.RULES, str(d))
+            bad = sorted({(i.rule, i.site, i.construct) for i in insts if not i.ok and not i.control})
+            return (kind, name, "error" if err else "ok", err or "", bad)
+        except Exception as exc:  # noqa: BLE001
+            return (kind, name, "error", f"{type(exc).__name__}: {exc}", [])
+        finally:
+            shutil.rmtree(d, ignore_errors=True)
     try:
         core = d / "stepup" / "core"
         core.mkdir(parents=True)
@@ -170,6 +183,10 @@ def run_audit(prop: str, module_name: str, mutants, variants, repo: str, seed: i
                     skipped.append(it.name)
                     continue
                 tasks.append((kind, it.name, scratch_root, repo, it.file, new, module_name))
+        from .benign import KINDS as _PKG_KINDS
+
+        for k in _PKG_KINDS:
+            tasks.append(("package-variant", k, scratch_root, repo, None, None, module_name))
         results = []
         jobs = jobs or min(16, os.cpu_count() or 4)
         if tasks:
@@ -198,8 +215,10 @@ def run_audit(prop: str, module_name: str, mutants, variants, repo: str, seed: i
                 alarms.append(dict(name=name, detail=f"{status}: {err[:200]}"))
             elif new_bad:
                 alarms.append(dict(name=name, detail=sorted(new_bad)[:5]))
+    nvar = sum(1 for t in tasks if t[0] in ("variant", "package-variant"))
     stats = dict(mutants_generated=sum(1 for t in tasks if t[0] == "mutant"), mutants_killed=len(killed),
-                 variants_checked=sum(1 for t in tasks if t[0] == "variant"), variants_silent=sum(1 for t in tasks if t[0] == "variant") - len(alarms),
+                 variants_checked=nvar, variants_silent=nvar - len(alarms),
+                 package_rewrites=[t[1] for t in tasks if t[0] == "package-variant"],
                  skipped_not_applicable=skipped, killed=killed)
     if broken:
         raise AnalysisError("audit: " + "; ".join(broken))
